@@ -71,6 +71,15 @@ def nudgeTag (b : Bool) : String := if b then "+nudge-proved" else "+nudge-sampl
 
 def toFP (p : Pt UInt64) : Pt Float := mapPt Float.ofBits p
 
+/-- all vertices on one line (or equal): the ring has no area -/
+def noArea (r : List (Pt Int)) : Bool :=
+  match r with
+  | [] => true
+  | a :: t =>
+    match t.find? fun b => !(b.x == a.x && b.y == a.y) with
+    | none => true
+    | some b => t.all fun c => EvenOdd.cross a b c == 0
+
 def clauseOf (nVariants idx : Nat) : String :=
   if idx == 0 then "even-odd" else
   if idx % 2 == 1 then (if idx == 1 then "closing" else if idx + 2 ≥ nVariants then "reversal-closed" else "rotation-closed")
@@ -169,6 +178,76 @@ def handleGrid (inp out : Toks) : String :=
     let qs : List (Pt UInt64) := axis.flatMap fun x => axis.map fun y => ⟨x.toBits, y.toBits⟩
     judgeRing r qs out true
 
+/-- the forms of `gridp` (order shared with harness/c09.go `gridPolyAnswers`): the ring `v` wrapped as
+    `Polygon{v}`, `Polygon{box, v}`, `Polygon{box, {}, v}`, `MultiPolygon{{v}}`, `MultiPolygon{{box, v}}`,
+    `MultiPolygon{{box, v}, {v}}`; the name is the clause a mismatch breaks -/
+def gridPolyForms {β} (box v : List β) : List (String × List (List (List β))) :=
+  [("polygon-outer-ring-only", [[v]]),
+   ("polygon-ring-as-hole", [[box, v]]),
+   ("polygon-ring-as-second-hole", [[box, [], v]]),
+   ("multipolygon-of-ring", [[v]]),
+   ("multipolygon-ring-as-hole", [[box, v]]),
+   ("multipolygon-hole-then-ring", [[box, v], [v]])]
+
+/-- forms 0..2 go through `PolygonContains`, 3..5 through `MultiPolygonContains` -/
+def gridPolyIsMulti (k : Nat) : Bool := k ≥ 3
+
+def boxOf {β} (f : Int → β) (b0 b1 : Int) : List (Pt β) :=
+  [⟨f b0, f b0⟩, ⟨f b1, f b0⟩, ⟨f b1, f b1⟩, ⟨f b0, f b1⟩, ⟨f b0, f b0⟩]
+
+/-- `gridp lo2 hi2 b0 b1 <n pts> => <6 tokens per variant>`: the grid family through `PolygonContains` and
+    `MultiPolygonContains`.  Every variant of the ring (rotations, reversal, closings) in every form is compared
+    with the Float twin and with the exact spec `EvenOdd.polyInside` / `multiInside` of the BASE ring's forms
+    (the region does not depend on the variant). -/
+def handleGridP (inp out : Toks) : String :=
+  match (do
+    let (lo, i) ← int inp
+    let (hi, i) ← int i
+    let (b0, i) ← int i
+    let (b1, i) ← int i
+    let (r, _) ← pts i
+    pure (lo, hi, b0, b1, r)) with
+  | none => "bad input"
+  | some (lo, hi, b0, b1, r) =>
+    let n := (hi - lo + 1).toNat
+    let axis : List Float := (List.range n).map fun (k : Nat) => Float.ofInt (lo + (k : Int)) / 2
+    let qs : List (Pt UInt64) := axis.flatMap fun x => axis.map fun y => ⟨x.toBits, y.toBits⟩
+    let qF := qs.map toFP
+    let boxF : List (Pt Float) := boxOf Float.ofInt b0 b1
+    let vsF := variants (r.map toFP)
+    let twin : List String := vsF.flatMap fun v =>
+      (gridPolyForms boxF v).zipIdx.map fun ((_, mp), k) =>
+        String.ofList (qF.map fun q =>
+          if gridPolyIsMulti k then resChar (multiPolygonContains (Nudge.real nextUp) ebF mp q)
+          else match mp with
+            | [pg] => resChar (polygonContains (Nudge.real nextUp) ebF pg q)
+            | _ => '?')
+    let agree := twin == out
+    let fin (s : String) : String := if s.startsWith "propfail" || agree then s else "diff " ++ " ".intercalate twin
+    fin <|
+    if out.length != 6 * vsF.length then "bad token-count" else
+    if out.any fun t => t.length != qs.length then (if out.any (· == "panic") then "propfail panic" else "bad answer-length") else
+    if out.any fun t => t.toList.any (· == 'p') then
+      let k := (out.zipIdx.find? fun (t, _) => t.toList.any (· == 'p')).map (·.2) |>.getD 0
+      s!"propfail panic variant={k / 6} form={k % 6}" else
+    match allSome scaledPt? r, allSome scaledPt? qs with
+    | some ri, some qi =>
+      let boxI : List (Pt Int) := boxOf (fun i => i * 256) b0 b1
+      let wants : List (String × String) := (gridPolyForms boxI ri).map fun (nm, mp) =>
+        (nm, String.ofList (qi.map fun q => bChar (EvenOdd.multiInside mp q)))
+      let nV := vsF.length
+      let bad := (out.zipIdx).findSome? fun (t, i) =>
+        match wants[i % 6]? with
+        | some (nm, want) => (firstDiff t.toList want.toList).map fun j => (i, j, nm, want)
+        | none => none
+      match bad with
+      | some (i, j, nm, want) => s!"propfail {nm} ({clauseOf nV (i / 6)}) variant={i / 6} form={i % 6} point={j} spec={want}"
+      | none =>
+        if r.isEmpty then "ok triv-gridp-empty-ring" else
+        let specs : List (Bool × Bool) := qi.map fun q => (EvenOdd.onBoundary ri q, EvenOdd.inside ri q)
+        s!"ok gridp{if r.length ≤ 2 then "-degenerate" else ""}{classTag specs}"
+    | _, _ => "bad gridp-not-dyadic"
+
 def panicFreeSpec (want got : List Char) : Option Nat := firstDiff got want
 
 /-- `poly <PG …> <m pts> => answers` -/
@@ -209,7 +288,22 @@ def handlePoly (inp out : Toks) : String :=
               match allSome (allSome ratPt?) rs, allSome ratPtNext? qs with
               | some rq, some qn => rq.all fun rg => qn.all fun (q, nx) => nudgeProvedRing rg q nx
               | _, _ => false
-            s!"ok poly{if rs.length > 1 then "+holes" else ""}{if inHole then "+inhole" else ""}{if onHole then "+onhole" else ""}{if onHoleVtx then "+onholevertex" else ""}{nudgeTag proved}")
+            -- rings of fewer than three vertices and rings without area (all vertices collinear or equal), as
+            -- outer ring with a query the polygon CONTAINS (it lies on that ring), as hole with a query in the
+            -- outer ring that lies ON the hole (so the answer '0' is the hole's doing)
+            let smallOuter := match ri with
+              | o :: _ => o.length < 3 && qi.any fun q => EvenOdd.polyInside ri q
+              | [] => false
+            let flatOuter := match ri with
+              | o :: _ => o.length ≥ 3 && noArea o && qi.any fun q => EvenOdd.polyInside ri q
+              | [] => false
+            let smallHole := match ri with
+              | o :: hs => qi.any fun q => EvenOdd.inside o q && hs.any fun h => h.length < 3 && EvenOdd.inside h q
+              | [] => false
+            let flatHole := match ri with
+              | o :: hs => qi.any fun q => EvenOdd.inside o q && hs.any fun h => h.length ≥ 3 && noArea h && EvenOdd.inside h q
+              | [] => false
+            s!"ok poly{if rs.length > 1 then "+holes" else ""}{if smallOuter then "+on-outer-under3" else ""}{if flatOuter then "+on-flat-outer" else ""}{if smallHole then "+on-hole-under3" else ""}{if flatHole then "+on-flat-hole" else ""}{if inHole then "+inhole" else ""}{if onHole then "+onhole" else ""}{if onHoleVtx then "+onholevertex" else ""}{nudgeTag proved}")
        | _, _ =>
          (match allSome (allSome ratPt?) rs, allSome ratPt? qs with
           | some rq, some qq =>
@@ -247,8 +341,14 @@ def handleMPoly (inp out : Toks) : String :=
               match allSome (allSome (allSome ratPt?)) ps, allSome ratPtNext? qs with
               | some pq, some qn => pq.all fun pg => pg.all fun rg => qn.all fun (q, nx) => nudgeProvedRing rg q nx
               | _, _ => false
+            let smallOuter := pi.any fun pg => match pg with
+              | o :: _ => (o.length < 3 || noArea o) && qi.any fun q => EvenOdd.polyInside pg q
+              | [] => false
+            let smallHole := pi.any fun pg => match pg with
+              | o :: hs => qi.any fun q => EvenOdd.inside o q && hs.any fun h => (h.length < 3 || noArea h) && EvenOdd.inside h q
+              | [] => false
             if ps.isEmpty then "ok triv-empty-multipolygon" else
-            s!"ok mpoly{if ps.length > 1 then "+multi" else ""}{if onHole then "+onhole" else ""}{nudgeTag proved}")
+            s!"ok mpoly{if ps.length > 1 then "+multi" else ""}{if smallOuter then "+on-degenerate-outer" else ""}{if smallHole then "+on-degenerate-hole" else ""}{if onHole then "+onhole" else ""}{nudgeTag proved}")
        | _, _ =>
          (match allSome (allSome (allSome ratPt?)) ps, allSome ratPt? qs with
           | some pq, some qq =>
@@ -264,6 +364,7 @@ def handle (ts : Toks) : String :=
     match op with
     | "ring" => handleRing inp out
     | "grid" => handleGrid inp out
+    | "gridp" => handleGridP inp out
     | "poly" => handlePoly inp out
     | "mpoly" => handleMPoly inp out
     | _ => "bad op " ++ op
